@@ -50,3 +50,7 @@ int main(int argc, char** argv) {
   }
   return 0;
 }
+
+/* byte-wise helpers with their own loop ids (vmem_equal.0 / vmem_copy.0) so that their bound can be set independently */
+uint32_t vmem_equal(const uint8_t* a, const uint8_t* b, uint64_t n) { uint32_t e = 1; for (uint64_t i = 0; i < n; i++) e = e & (a[i] == b[i]); return e; }
+void vmem_copy(uint8_t* d, const uint8_t* s, uint64_t n) { for (uint64_t i = 0; i < n; i++) d[i] = s[i]; }
